@@ -70,6 +70,12 @@ CLAIMS = {
          "the genesis address originates from a GetRoots() vertex's issuer.",
          "equality of vertex sets, balances and follow-up behaviour with the peer; truncated or multi-tip sources; stream order",
          "CFG reachability / must-reach-cancel obligations + origin analysis on go/ssa"),
+ "C04": ("DESIGN.md §3 C04",
+         "Static analysis of the verification chain and of what the signatures cover: gossip admission only behind vertex verification; each link (vertex → issuer/receiver signatures → sha256 equality, checksum-validated address, ed25519.Verify) reports success only as the result of the next link bound to the right fields; "
+         "every stored/wire field of Vertex and Transaction contributes content to a signed digest or is a verification input (sibling-table agreement between struct and digest); injectivity of the signed encoding (≥2 variable-width fields need lengths); conditionally verified signatures must be bound by a digest. "
+         "Two genuine defects found this way are recorded as known findings (field-boundary ambiguity of GetMessage; strippable receiver signature).",
+         "cryptographic strength, bit-level behaviour of base58/ed25519, unchanged-ledger-after-rejection (covered structurally by C15/C03/C09)",
+         "edge-cut guard dominance + return-propagation analysis + struct/digest field-coverage comparison on go/ssa and go/types"),
 }
 
 NA = {
